@@ -10,7 +10,8 @@ P("C02",
              "equal the single Run's log and the final outcome/handler state/engine state are equal (induction over the boundary list with "
              "c02_run_until_split). c02_segment_exact: for programs that never schedule in the past, a returning RunUntil(t) handled exactly the "
              "entries with time <= t among queued-before + scheduled-during, left exactly the later ones queued, clock = last handled time; "
-             "c02_driver_segments_exact chains this over the driver; c02_run_until_safe. The model is compared with timing.SerialEngine "
+             "c02_driver_segments_exact chains this over the driver; c02_run_until_safe; c02_concat_scripts discharges the fuel hypothesis for every script "
+             "of the tie; c02_model_agreement_implies_property links Exec.check_case to Exec.holds_on on well-formed cases. The model is compared with timing.SerialEngine "
              "(segments and a fresh single Run: steps, clock, queued events after every call, outcome).",
   level_note="Trusted: Coq kernel + vm_compute; the Go harness (script interpreter on the Go side, trace recording, checkpoint parsing); the hand-written "
              "model of serialengine.go (tied by exact equality). holds_on checks the observed segments against the observed single Run, independent of the model.",
